@@ -551,11 +551,18 @@ func (e *CoreExtension) functionRange(args ...interface{}) (interface{}, error) 
 		// For positive step, include the end value (end is inclusive)
 		for i := start; i <= end; i += step {
 			result = append(result, i)
+			if i > end-step {
+				// The next value would pass the end; stop here so that i += step cannot wrap around
+				break
+			}
 		}
 	} else {
 		// For negative step, include the end value (end is inclusive)
 		for i := start; i >= end; i += step {
 			result = append(result, i)
+			if i < end-step {
+				break
+			}
 		}
 	}
 
